@@ -172,7 +172,11 @@ def shapes():
         ('many(sum(arg,unit_switch))', many(sum_('lg', A(), usw('lb', 'f', 'flag')))),
         ('commands', cmds()),
         ('optional(commands)', optional(cmds())),
-        ('commands(switch;2 subcommands with flags)', commands(sw('lb', 'v', 'verbose'), [('c1', 't1', prod(sw('lf', 'f', 'flag'), A())), ('c2', 't2', optional(opt_o()))])),
+        ('commands(switch;c1:prod(switch,arg);c2:optional(option))', commands(sw('lb', 'v', 'verbose'), [('c1', 't1', prod(sw('lf', 'f', 'flag'), A())), ('c2', 't2', optional(opt_o()))])),
+        ('commands(switch;c1:prod(arg,option_p);c2:prod(many(arg_s),option))',
+         commands(sw('lb', 'v', 'verbose'), [('c1', 't1', prod(A(), opt('ld', 'p', 'port', 'Str'))), ('c2', 't2', prod(many(A('le', 'Str')), opt_o()))])),
+        ('commands(option_default;c1:prod(arg_s,option_s,switch))',
+         commands(optd(), [('c1', 't1', prod(A('la', 'Str'), opt_o('lc', 'Str'), sw_f()))])),
         ('prod(base(arg),switch)', prod(base(A()), sw_f())),
         ('optional(base(prod(arg,option)))', optional(base(prod(A(), opt_o())))),
         ('prod(cref(option),cref(arg))', prod(cref(opt_o()), cref(A()))),
